@@ -61,3 +61,20 @@ func (e *csEnv) reserves(pool types.Pool) (S, T, L *big.Int) {
 	addr := types.GetReservePoolAddr(pool.LptDenom)
 	return e.bank.get(addr, csStd).BigInt(), e.bank.get(addr, pool.CounterpartyDenom).BigInt(), e.bank.supplyOf(pool.LptDenom).BigInt()
 }
+
+// donate: somebody sent coins of a third denomination straight to the pool's escrow address (anyone can).
+func (e *csEnv) donate(pool types.Pool, denom string) {
+	e.bank.fund(types.GetReservePoolAddr(pool.LptDenom), denom, verifIntIn("donated_"+denom, big.NewInt(0), verifPow2(40)))
+}
+
+// csSide3: the denomination a one-sided liquidity message names: the pool's token, the standard coin, or
+// a denomination that is not part of the pool at all.
+func csSide3() string {
+	switch verifChoice("side", 3) {
+	case 1:
+		return csStd
+	case 2:
+		return "eth"
+	}
+	return "btc"
+}
